@@ -89,9 +89,11 @@ func (f *Defun) Call(s *slip.Scope, args slip.List, depth int) (result slip.Obje
 			_, _ = fmt.Fprintf(w, "WARNING: redefining %s:%s in defun\n", slip.CurrentPackage.Name, low)
 		}
 	}
-	pkg.DefLambda(low, lc, fc, slip.FunctionSymbol)
+	// The closure must be set before DefLambda which copies it into an
+	// already existing (forward referenced or redefined) lambda.
 	if 0 < len(s.Parents()) {
 		lc.Closure = s
 	}
+	pkg.DefLambda(low, lc, fc, slip.FunctionSymbol)
 	return name
 }
